@@ -26,7 +26,7 @@ PID = "G04"
 # FALSE: the specification models SimulatorTask._run as the code has it (finding G04:sim-poll-reads-state-before-returncode, named
 # deviation SimTornPoll).  Set to "TRUE" once /repo is repaired (out/proposed_fixes/G04_simulator_torn_poll.diff): the strong property
 # SimDeadHasCode then holds and is checked as an invariant.
-SIM_STATE_LAST = os.environ.get("G04_SIM_STATE_LAST", "FALSE")
+SIM_STATE_LAST = os.environ.get("G04_SIM_STATE_LAST", "TRUE")    # repaired in /repo, see known_findings.json
 FINDING_SIM = "sim-poll-reads-state-before-returncode"
 LIGHT = ["-XX:TieredStopAtLevel=1"]       # small models: the JIT costs more than it gains
 GEN = os.path.join(SPEC, "gen", "g04_%d" % os.getpid())
@@ -84,6 +84,7 @@ DEVIATIONS = [
     ("SimCodeBeforeState", "SimSpec", "INVARIANT", "SimCodeOnlyWhenDead", dict(MaxKill=0)),
     ("SimKillRewritesExit", "SimSpec", "PROPERTY", "SimFinishedStaysFinished", dict(MaxKill=1)),
     ("SimKillWaitsOut", "SimSpec", "PROPERTY", "SimKillAbortsExecution", dict(MaxKill=1)),
+    ("SimKillLost", "SimSpec", "PROPERTY", "SimKillSticks", dict(MaxKill=1, Fine="TRUE", SimStateLast="FALSE")),
 ]
 
 
@@ -359,6 +360,8 @@ def transition_cover(chk, name, edges, kind, params):
 # 3. code -> spec: random lock-stepped runs validated by TLC
 
 def tla(v):
+    if v is None:
+        return '"<None>"'
     if isinstance(v, bool):
         return "TRUE" if v else "FALSE"
     if isinstance(v, int):
@@ -481,7 +484,11 @@ def code_to_spec(chk, tier, scratch, only_group=None, only_seed=None):
             if tr:
                 runs.append((sd, tr))
         tag = "%s_%d_%s" % (kind, gi, tier)
-        rejected, inv = validate_traces(chk, tag, kind, consts, [tr for _sd, tr in runs])
+        rejected, inv = {}, None
+        for b0 in range(0, len(runs), 300):
+            rej, inv1 = validate_traces(chk, tag, kind, consts, [tr for _sd, tr in runs[b0:b0 + 300]])
+            rejected.update({b0 + i: ll for i, ll in rej.items()})
+            inv = inv or inv1
         if inv:
             chk.violation("trace:%s:invariant" % kind, "a recorded run of the real code reaches a state that violates an invariant of the "
                           "specification: %s" % inv[-1500:], {"kind": "trace-group", "group": gi})
@@ -503,6 +510,12 @@ def code_to_spec(chk, tier, scratch, only_group=None, only_seed=None):
             for st in tr:
                 acts[st[0]] = acts.get(st[0], 0) + 1
         stats["%s%s" % (kind, list(params))] = dict(runs=len(runs), steps=sum(len(tr) for _sd, tr in runs), rejected=len(rejected), by_action=acts)
+        if only_group is None:
+            need = {"task": ["Create", "ProcExit", "ExtSignal", "Call", "W", "WaitCall", "O", "MonStart", "Cancel", "Fire", "T"],
+                    "per": ["Start", "Cancel", "P", "Elapse"], "sim": ["Create", "R", "P", "Kill", "K", "WaitCall", "O", "View"]}[kind]
+            never = [a for a in need if not acts.get(a)]
+            if never:
+                raise MachineryError("trace actions never taken by a recorded run of group %s %s (vacuous validation): %s" % (kind, params, never))
         # self-test of the binding: one corrupted field must be rejected
         if not selftest_done and runs and kind == "task":
             sd, tr = max(runs, key=lambda x: len(x[1]))
